@@ -29,7 +29,7 @@ Proof.
   intros Hf Hok I.
   assert (E : live_ptrs (with_live s (upd_blk p f (live s))) = live_ptrs s).
   { unfold live_ptrs, with_live. cbn. apply map_bk_p_upd_blk. assumption. }
-  destruct I as [i1 i2 i3 i4 i5 i6 i7 i8 i9].
+  destruct I as [i1 i2 i3 i4 i5 i6 i7 i8 i9 i10 i11 i12].
   constructor; rewrite ?E; unfold with_live; cbn [slabs larges partial live]; auto.
   intros b Hb. apply in_upd_blk in Hb. destruct Hb as [Hb| (b0 & Hb0 & Hp & ->)].
   - apply (blk_ok_with_live c s (upd_blk p f (live s))). apply i7. assumption.
@@ -207,6 +207,12 @@ Proof.
     { generalize (N.to_nat i) as a, (N.to_nat (nbuckets c)) as b. intros a b; revert a; induction b; destruct a; cbn; auto. }
     rewrite E. split; [constructor|]. intros a. split; [intros []|intros (x & [] & _)].
   - intros x [].
+  - reflexivity.
+  - cbn. rewrite !repeat_length. auto.
+  - intros i Hi. unfold foot_ok, nlive_of, peak_of, cfree, cnum, init. cbn [slabs nlive peak map sumN].
+    assert (E : nth (N.to_nat i) (repeat 0 (N.to_nat (nbuckets c))) 0 = 0).
+    { generalize (N.to_nat i) as a, (N.to_nat (nbuckets c)) as b. intros a b; revert a; induction b; destruct a; cbn; auto. }
+    rewrite E. pose proof (nobj_ge2 c i F Hi). lia.
 Qed.
 
 Definition hist_ok_both (c : cfg) (s : state) (ops : list op) : Prop :=
